@@ -383,6 +383,15 @@ def cover_1d(terms, n, nmin=1):
     -> ("proved" | "refuted" | "unknown", detail)"""
     from math import gcd
     L, D = 1, 0
+    norm = []
+    for lp, g, sg in terms:
+        st_ = sym.const_value(lp["step"])
+        if st_ == -1 and lp["cmp"] in (">", ">="):
+            # a unit-stride descending loop visits the same values as the ascending loop over its range
+            lo_ = sym.add(lp["hi"], I(1)) if lp["cmp"] == ">" else lp["hi"]
+            lp = dict(lp, lo=lo_, hi=lp["lo"], cmp="<=", step=I(1))
+        norm.append((lp, g, sg))
+    terms = norm
     for lp, g, sg in terms:
         s = sym.const_value(lp["step"])
         if s is None or s <= 0 or lp["cmp"] not in ("<", "<="):
